@@ -81,6 +81,10 @@ struct Loop {
 impl Loop {
     fn new(from: i32, to: i32, step: i32, delay: i32, command: char, parsed_string: String, loop_parameters: Vec<Vec<String>>) -> EngineResult<Self> {
         let command = IgsCommands::from_char(command)?;
+        // "step value, positive number only" - with a step of 0 the loop would never end
+        if step <= 0 {
+            return Err(anyhow::anyhow!("invalid loop step: {step}"));
+        }
         Ok(Self {
             i: from,
             from,
